@@ -129,3 +129,33 @@ pub fn record(seed: u64, n: usize, out: &str) {
         writeln!(f, "{}", ev).unwrap();
     }
 }
+
+/// The leaves of C02: a numeral means the double nearest to it.  Inside the model's exact domain
+/// `Num!F64Value` says which one; outside it the model cannot compute the value, and Rust's own
+/// `str::parse::<f64>` (correctly rounded) stands in as the evaluator of that operator.  Every
+/// length up to 24 digits with the dot anywhere, printed alone, negated and compared with itself.
+pub fn literals(seed: u64, n: usize, rep: &mut crate::report::Report) {
+    let mut rng = StdRng::seed_from_u64(seed ^ 0x11fe);
+    for _ in 0..n {
+        let len = rng.gen_range(1..=24);
+        let dot = if rng.gen_bool(0.8) { Some(rng.gen_range(0..=len)) } else { None };
+        let mut lit = String::new();
+        for k in 0..len {
+            if dot == Some(k) { lit.push('.'); }
+            lit.push((b'0' + rng.gen_range(0..10u8)) as char);
+        }
+        if lit.starts_with('.') && lit.len() == 1 { continue; }
+        let Ok(v) = lit.parse::<f64>() else { continue };
+        rep.count("literals");
+        let spaced: String = lit.chars().flat_map(|c| if rng.gen_bool(0.2) { vec![c, ' '] } else { vec![c] }).collect();
+        for (expr, expect) in [(lit.clone(), format!("{}\n", v)), (format!("- {}", lit), format!("{}\n", -v)), (format!("{} = {}", spaced, lit), "1\n".to_string())] {
+            let o = observe(&expr);
+            let text = text_of(&o["text"]);
+            if o["err"] != "" || text != expect {
+                rep.violation("C02", "literal_not_correctly_rounded", json!({"digits": len}),
+                    json!({"expr": expr, "expected_text": expect, "observed_text": text, "observed_error": o["err"]}));
+                break;
+            }
+        }
+    }
+}
